@@ -5,6 +5,7 @@ CONSTANTS
   Stateless = FALSE
   MaxSlots = 2
   MaxParked = 2
+  StoreModes = {"nopurge", "down"}
 CONSTRAINT TMark
 POSTCONDITION TAccepted
 CHECK_DEADLOCK FALSE
